@@ -699,3 +699,57 @@ Proof.
       apply Qlt_le_weak. apply Qlt_shift_div_l; [exact He|]. rewrite Qmult_0_l. reflexivity.
     + apply (beats_nonneg_lookup _ emitter_beats_nonneg name t0 seq El).
 Qed.
+
+(* ------------------------------------------------------------------ when is the pin left sounding? *)
+Lemma noop_dstep pin neg tbl st o : noop_call tbl o = true -> dstep pin neg tbl st o = (st, []).
+Proof.
+  unfold noop_call. intro H. apply andb_true_iff in H as [Ht Hg]. apply negb_true_iff in Hg.
+  destruct o as [f [d|]| |f on off times|s e d steps|name tempo]; cbn in Ht, Hg; try discriminate; cbn [dstep].
+  - unfold beep. apply Z.leb_gt in Hg.
+    replace (Z.to_nat (Z.max 0 (c_int times))) with 0%nat by lia. reflexivity.
+  - unfold melody, score in *. destruct (tlookup name tbl) as [[t0 [|x r]]|]; try discriminate; reflexivity.
+Qed.
+
+Lemma run_snoc pin neg tbl st ops o :
+  run pin neg tbl st (ops ++ [o]) =
+  (fst (dstep pin neg tbl (fst (run pin neg tbl st ops)) o),
+   snd (run pin neg tbl st ops) ++ snd (dstep pin neg tbl (fst (run pin neg tbl st ops)) o)).
+Proof. rewrite run_app, run_single. reflexivity. Qed.
+
+(* C16_sounding_characterised: after any call sequence on a fresh buzzer the pin is sounding only if the last
+   call that emitted any code was an untimed play_tone with a positive frequency - and then
+   get_frequency = get_last_frequency = that frequency *)
+Lemma sounding_characterised : forall pin neg tbl default ops,
+  sounding (snd (run pin neg tbl (init default) ops)) = true ->
+  exists pre f post,
+    ops = pre ++ [PlayTone f None] ++ post /\ (0 < f)%Q /\ forallb (noop_call tbl) post = true /\
+    get_frequency (fst (run pin neg tbl (init default) ops)) = f /\
+    get_last_frequency (fst (run pin neg tbl (init default) ops)) = f.
+Proof.
+  intros pin neg tbl default ops. induction ops as [|o ops IH] using rev_ind; intro Hs.
+  - cbn in Hs. discriminate.
+  - destruct (noop_call tbl o) eqn:En.
+    + (* nothing emitted: same trace, same state *)
+      rewrite run_snoc in Hs |- *. rewrite (noop_dstep pin neg tbl _ o En) in Hs |- *.
+      cbn [fst snd] in *. rewrite app_nil_r in Hs.
+      destruct (IH Hs) as (pre & f & post & Ho & Hf & Hp & Hc & Hl).
+      exists pre, f, (post ++ [o]). split; [rewrite Ho, <- !app_assoc; reflexivity|].
+      split; [exact Hf|]. split; [rewrite forallb_app, Hp; cbn; rewrite En; reflexivity|].
+      split; assumption.
+    + pose proof (getters_all_sequences pin neg tbl default (ops ++ [o])) as (H1 & _).
+      rewrite Hs in H1. unfold get_state in H1. rewrite run_snoc in H1. cbn [fst] in H1.
+      set (st := fst (run pin neg tbl (init default) ops)) in *.
+      destruct (timed o) eqn:Et.
+      * (* a timed call inside the guard ends silent *)
+        unfold noop_call in En. rewrite Et in En. cbn in En. apply negb_false_iff in En.
+        rewrite (timed_state_false pin neg tbl st o Et En) in H1. discriminate.
+      * (* untimed: stop() (state false: contradiction, closed by discriminate) or play_tone(f) *)
+        destruct o as [f [d|]| |f on off times|s e d steps|name tempo]; cbn in Et; try discriminate.
+        -- destruct (qlt q0 f) eqn:E.
+           ++ destruct (play_tone_protocol pin neg tbl st f q0) as [Hp _]. destruct (Hp E) as [Hd _].
+              exists ops, f, []. split; [reflexivity|]. split; [apply qlt_true; exact E|].
+              split; [reflexivity|]. rewrite run_snoc. cbn [fst]. fold st. rewrite Hd. split; reflexivity.
+           ++ assert (E' : qle f q0 = true) by (rewrite qle_qlt, E; reflexivity).
+              destruct (play_tone_protocol pin neg tbl st f q0) as [_ Hp]. destruct (Hp E') as [Hd _].
+              rewrite Hd in H1. cbn in H1. discriminate.
+Qed.
